@@ -9,6 +9,7 @@ from . import env
 
 class World:
     """One device + one link + the log of everything the manager did to them."""
+    _created = 0
 
     def __init__(self, device, flavour="hid"):
         self.device = device
@@ -25,7 +26,10 @@ class World:
         # how a time-out is realised: False = the answer is lost; True = the answer arrives after the host gave
         # up and stays queued on the open handle (ledgerblue's HID and TCP transports do not drain on a
         # time-out), so whoever goes on using the SAME handle reads its predecessor's answer; closing drops it
-        self.late_answers = os.environ.get("VERIF_LATE_ANSWERS", "") == "1"
+        # (every second world of a run takes the second realisation; VERIF_LATE_ANSWERS=0 / 1 forces one)
+        World._created += 1
+        forced = os.environ.get("VERIF_LATE_ANSWERS", "")
+        self.late_answers = forced == "1" or (forced != "0" and World._created % 2 == 0)
 
     # ---- logging
     def emit(self, ev):
